@@ -59,6 +59,9 @@ static inline double *Eigenvalues_at(RealVector *v, long i)
 //@tu src/pomerol/HamiltonianPart.cpp
 //@maythrow HamiltonianPart_getEigenValue
 //@rename RealVector_call => Eigenvalues_at
+/* twins for the other spelling of an increment (`++it` for `it++` and vice versa): same effect.  X_inc yields the iterator after the step
+ * (exact); X_postinc made from X_inc is void, so a use of its value does not compile (UNDECIDED) instead of being modelled wrongly */
+#define PartVecIt_inc(it_) (PartVecIt_postinc(it_), (it_))      /* pre-increment: the iterator itself, after the step */
 //@function Pomerol::HamiltonianPart::getEigenValue(unsigned long) const as HamiltonianPart_getEigenValue
 //@end
 //@rename RealVector_call => RealVector_call
